@@ -47,8 +47,25 @@ var ffNames = []string{"f1", "f2", "f3", "fid", "fodd", "ferr", "fprobe"}
 var docProbe func()
 var afNames = []string{"g1", "g2", "gcnt", "gerr"}
 
+// curVariant selects one of two behaviourally different implementations of the model's wrapper functions:
+// variant 1 tags the function name inside every wrapper array with a trailing marker character.  Cases alternate between the variants, so a parsed
+// tree that is (wrongly) shared between two Parse calls with different Configs under the same names shows.
+// matches() strips the marker again.
+var curVariant int
+
+const variantMark = "\u200b"
+
+var wrapperNames = map[string]bool{"f1": true, "f2": true, "f3": true, "fodd": true, "g1": true, "g2": true}
+
 // modelConfig registers the model's function table (spec/Semantics.tla, ApplyFF / ApplyAF).
 func modelConfig(log *callLog, accessor bool) jsonpath.Config {
+	variant := curVariant
+	mark := func(a []interface{}) []interface{} {
+		if variant == 1 {
+			a[0] = a[0].(string) + variantMark
+		}
+		return a
+	}
 	cfg := jsonpath.Config{}
 	for _, name := range ffNames {
 		name := name
@@ -71,7 +88,7 @@ func modelConfig(log *callLog, accessor bool) jsonpath.Config {
 				}
 				return v, nil
 			}
-			return []interface{}{name, v}, nil
+			return mark([]interface{}{name, v}), nil
 		})
 	}
 	for _, name := range afNames {
@@ -88,7 +105,7 @@ func modelConfig(log *callLog, accessor bool) jsonpath.Config {
 			case "gcnt":
 				return float64(len(vs)), nil
 			}
-			return append([]interface{}{name}, cp...), nil
+			return mark(append([]interface{}{name}, cp...)), nil
 		})
 	}
 	if accessor {
